@@ -12,7 +12,8 @@ this file adds
   `spec_classes/methods/collections/*.py`: `with_/update_/transform_/without_<item>`, which hand the
   edited collection to `mutate_attr(type_check=False)`),
 * the invariant `wt` (every managed attribute that is set conforms to its annotation — element, key and
-  value types, Union/Optional alternatives, Literal choices, nested spec classes, recursively),
+  value types, Union/Optional alternatives, Literal choices, nested spec classes, recursively; `conformsDeep`:
+  also for container classes `check_type` does not look inside),
 * `step`: one API call of any route, and `Reachable`: all histories.
 
 Core Lean only.
@@ -21,6 +22,18 @@ namespace SpecVerif.C03
 open SpecVerif.Py SpecVerif.C05
 
 /-! ## the invariant -/
+
+/-- What the property demands of the value a managed attribute holds: `check_type` (`conforms`), and, for the
+container classes `check_type` does not look inside (the abstract collection generics `MutableSequence[t]`,
+`MutableSet[t]`, `MutableMapping[k, v]`), also the element / key / value types. For every other annotation
+this is `conforms` itself (`conformsDeep_eq`). -/
+def conformsDeep (E : Env) (ty : Ty) (v : Val) : Bool :=
+  conforms E ty v &&
+    (match ty, v with
+     | .mseq t, .list xs => xs.all (conforms E t)
+     | .mset t, .set xs => xs.all (conforms E t)
+     | .mmap k w, .dict kvs => kvs.all (fun k' v' => conforms E k k' && conforms E w v')
+     | _, _ => true)
 
 mutual
 /-- every spec instance inside the value has only conforming managed attributes (deep) -/
@@ -41,7 +54,7 @@ def wtFlds (E : Env) (c : Nat) : Flds → Bool
   | .cons a v r =>
     (v == MISSING ||
       ((match E.attr? c a with
-        | some sp => conforms E sp.ty v
+        | some sp => conformsDeep E sp.ty v
         | none => true) && wt E v)) && wtFlds E c r
 end
 
@@ -247,16 +260,18 @@ def setColl (E : Env) (n : Nat) (recv : Val) (sp : AttrSpec) (t : Ty) (xs : List
 
 /-- the new collection an element helper builds (`attr_spec.get_collection_mutator(self).<op>(…).collection`) -/
 def elemColl (E : Env) (n : Nat) (recv : Val) (sp : AttrSpec) (op : EOp) : Except Err Val :=
+  -- `if self.collection is MISSING: self.collection = self._create_collection()`: TypeError for an abstract class
+  if sp.ty.isAbstract && E.getAttr recv sp.name == MISSING then .error .typeError else
   match sp.ty with
-  | .list t => do
+  | .list t | .mseq t => do
     let xs ← curList E recv sp
     let ys ← seqColl E n recv sp t xs op
     pure (.list (Vals.ofList ys))
-  | .dict kt vt => do
+  | .dict kt vt | .mmap kt vt => do
     let kvs ← curDict E recv sp
     let kvs' ← mapColl E n recv sp kt vt kvs op
     pure (.dict kvs')
-  | .set t => do
+  | .set t | .mset t => do
     let xs ← curSet E recv sp
     let ys ← setColl E n recv sp t xs op
     pure (.set (Vals.ofList ys))
@@ -267,6 +282,9 @@ def kindMatches : Ty → EOp → Bool
   | .list _, .seqWith .. | .list _, .seqUpdate .. | .list _, .seqTransform .. | .list _, .seqWithout .. => true
   | .dict _ _, .mapWith .. | .dict _ _, .mapUpdate .. | .dict _ _, .mapTransform .. | .dict _ _, .mapWithout .. => true
   | .set _, .setWith .. | .set _, .setUpdate .. | .set _, .setTransform .. | .set _, .setWithout .. => true
+  | .mseq _, .seqWith .. | .mseq _, .seqUpdate .. | .mseq _, .seqTransform .. | .mseq _, .seqWithout .. => true
+  | .mmap _ _, .mapWith .. | .mmap _ _, .mapUpdate .. | .mmap _ _, .mapTransform .. | .mmap _ _, .mapWithout .. => true
+  | .mset _, .setWith .. | .mset _, .setUpdate .. | .mset _, .setTransform .. | .mset _, .setWithout .. => true
   | _, _ => false
 
 /-- an element helper call: `with_/update_/transform_/without_<item>(…, _inplace=…, _if=…)` -/
